@@ -293,6 +293,9 @@ macro_rules! impl_div_for_primitive {
             type Output = BigDecimal;
 
             fn div(self, denom: BigDecimal) -> BigDecimal {
+                if denom.is_zero() {
+                    panic!("Division by zero");
+                }
                 if self.is_one() {
                     denom.inverse()
                 } else {
@@ -386,6 +389,9 @@ macro_rules! impl_div_for_primitive {
             type Output = BigDecimal;
 
             fn div(self, denom: BigDecimal) -> Self::Output {
+                if denom.is_zero() {
+                    panic!("Division by zero");
+                }
                 if !self.is_normal() {
                     BigDecimal::zero()
                 } else if self.is_one() {
@@ -400,6 +406,9 @@ macro_rules! impl_div_for_primitive {
             type Output = BigDecimal;
 
             fn div(self, denom: &BigDecimal) -> Self::Output {
+                if denom.is_zero() {
+                    panic!("Division by zero");
+                }
                 if !self.is_normal() {
                     BigDecimal::zero()
                 } else if self.is_one() {
